@@ -290,6 +290,7 @@ impl PacketHeader {
 /// The initial packet is an `InitPacket` then multiple `ContPacket` are used to populate a large
 /// payload which is larger than the maximum packet size.
 #[derive(Debug)]
+#[cfg_attr(feature = "verif-hooks", derive(Clone))]
 pub struct Message {
     /// Channel Identifier. This is 4 bytes, but the endianness is not defined by the spec hence we
     /// will simply use the native endianness since its actual value is just important on the wire.
@@ -441,6 +442,7 @@ impl Message {
 
 /// Handles the receiving of packets and saves the messages according to their channels.
 #[derive(Default)]
+#[cfg_attr(feature = "verif-hooks", derive(Clone))]
 pub struct ChannelHandler {
     channels: HashMap<u32, Message>,
 }
@@ -475,5 +477,28 @@ impl ChannelHandler {
                 }
             }
         }
+    }
+}
+
+#[cfg(feature = "verif-hooks")]
+impl ChannelHandler {
+    /// Verification hook: the complete reassembly state, sorted by channel, as
+    /// `(channel, command byte, next sequence number, declared payload length, payload so far)`.
+    pub fn verif_snapshot(&self) -> Vec<(u32, u8, u8, usize, Vec<u8>)> {
+        let mut all: Vec<_> = self
+            .channels
+            .values()
+            .map(|m| {
+                (
+                    m.channel,
+                    m.command.encode(),
+                    m.sequence,
+                    m.payload_len,
+                    m.payload.clone(),
+                )
+            })
+            .collect();
+        all.sort();
+        all
     }
 }
